@@ -35,6 +35,8 @@ def cases(tier, seed):
 
 def run_case(scn):
     t = record.run_solver(scn, listener=True)
+    if t.fp_exhausted:
+        return {"violations": [], "obs": {"fp_domain_exhausted": 1}, "skip": "fp-domain-exhausted"}
     viol = []
     obs = {}
     if t.swallowed or t.aborted:
